@@ -69,6 +69,11 @@ def qruntime_part(ctx, binary, quick):
     behs += vlib.gen_behaviours(ctx, "GenBackoff", "GenBackoff.cfg", num=ns, depth=400, name="gen-backoff-streak", workers=2,
                                 env={"GEN_DEPTH": 45 if quick else 80, "GEN_ERRONLY": 1})[:ns]
     ctx.cov["long_failure_streaks"] = ns
+    # two failing items with outcome sequences of their own: the later deadline of one must not hold up the other's retry
+    n2 = 40 if quick else 1000
+    behs += vlib.gen_behaviours(ctx, "GenBackoff", "GenBackoff.cfg", num=n2, depth=60, name="gen-backoff-two",
+                                env={"GEN_DEPTH": 8 if quick else 14, "GEN_TWO": 1})[:n2]
+    ctx.cov["two_failing_items_behaviours"] = n2
     ctx.cov["behaviours_replayed"] += len(behs)
     ctx.sample({"outcome_sequence": behs[0]["outcomes"]})
     inp = os.path.join(ctx.scratch, "bbehs.json")
